@@ -21,6 +21,15 @@ served directory's getChild -> createSimilarFile), the Site one per run or one
 per connection: nothing remembered per path, per File object or per class may
 outlive the file it was computed from.
 
+Nor does it always stay the same UNDER a response: the producers carry an open file from one pull to the next, for as
+long as the client takes, and other processes write to the same file system.  In an eighth of the runs a writer touches
+the file between two pulls of one response (after the header fields were computed): replaces it by rename, grows it,
+overwrites it, or - the precondition of a finding repaired in /repo 36cba82, kept out of some runs by a knob - shortens
+or empties it in place.  A replaced path leaves the open file alone: the response is due exactly as computed.  Changed in place, the
+bytes (and, shortened, the length) of the response are no function of the request any more and get no verdict; what
+remains is the statement's last sentence: no pull may hang or raise, and the response must END - finish(), or the
+connection given up - instead of being polled for ever.
+
 The representation is not always the bytes on disk: static.File documents two
 subclass hooks ("methods to allow subclasses to e.g. decrypt files on the fly":
 openForReading() and getFileSize()).  In 40% of the runs the resource is such a
@@ -88,7 +97,8 @@ ID = "C25"
 ENGINE = "net"
 LEVEL = "exploration"
 TECHNIQUE = ("deterministic simulation: seeded Range-header grammar x per-run producer bufferSize x tape-chosen pulls, client reads, back-pressure "
-             "and connection loss on pipelined connections x file rewritten between requests x re-entrantly pulling consumer x representation served "
+             "and connection loss on pipelined connections x file rewritten between requests and changed by a concurrent writer between two pulls of "
+             "one response x re-entrantly pulling consumer x representation served "
              "through the openForReading()/getFileSize() subclass hooks (served length != stored length); every response "
              "checked against an independent RFC 9110 range evaluator applied to the file as it was when the request was rendered")
 QUICK_RUNS = 26000
@@ -102,7 +112,7 @@ COMPONENTS = {
              "MultipleRangeStaticProducer", "twisted.web.server.Site/Request.render", "twisted.web.http.HTTPChannel/Request "
              "(registerProducer/write/finish, pauseProducing/resumeProducing)", "twisted.internet._producer_helpers._PullToPush",
              "twisted.internet.task.Cooperator (fresh instance, scheduler = simulated clock)", "a real file under $VERIF_SCRATCH (rewritten "
-             "between requests)", "static.File.getChild/createSimilarFile (directory tree: a fresh File per request)",
+             "between requests; in an eighth of the runs replaced / grown / overwritten / shortened under a response in production)", "static.File.getChild/createSimilarFile (directory tree: a fresh File per request)",
              "static.File's subclass hooks openForReading()/getFileSize() (overridden in 40% of the runs: served length != length on disk)"],
     "stub": ["TCP transport with a small send buffer (detsim.net.SimTransport, hwm) and injected connection loss",
              "the client (scripted pipelined requests, reads tape-chosen amounts at tape-chosen times)",
@@ -125,12 +135,23 @@ RULE = ("run = one file path (size 0..64 KiB in three regimes; in 40% of the run
         "a Range header was produced by at least two reads of the file (two resumeProducing() calls), or the connection was lost inside such a body.  "
         "20% of the runs are the direct family: the same requests rendered into a PullConsumer (nesting depth of pulls from inside write() 0/1/2/6/40, "
         "each such pull tape-chosen, first pull inside registerProducer() or later, two live responses in 30%, producer stopped between pulls in 15%; "
-        "in 9 of 10 such runs the consumer does not pull from inside the write that completed the announced Content-Length - an open finding)")
+        "in 1 of 10 such runs the consumer does not pull from inside the write that completed the announced Content-Length - a repaired finding).  "
+        "12% of the runs (both families): a concurrent writer changes the file UNDER one response - the last one of a connection / any one of the "
+        "direct family - once its open file has been read 0/1/2/4 times: replaced by rename (strict verdict: the open file is untouched; also "
+        "for the inflated representation), grown or overwritten in place, or (7 such runs in 10; precondition of a finding repaired in /repo 36cba82, knob AVOID_SHRINK_UNDER_RESPONSE) "
+        "truncated / emptied in place; after a change in place the response gets no verdict on fields, bytes or framing, but no pull may "
+        "read at end of file 3000 times in a row (a call that never returns), no exception may escape or be logged, the file must be closed "
+        "in the end, and the response must end (finish() once, or the connection dropped) instead of being pulled 60 times in a row in vain")
 ASSUMPTIONS = ["'a static file resource' includes a static.File subclass that overrides only the two documented hooks openForReading() and getFileSize() "
                "consistently (getFileSize() = number of bytes the object returned by openForReading() yields; that object supports read/seek/tell/close "
                "like a binary file); 'file content' is then the content served, whose length may be larger or smaller than os.stat().st_size",
-               "the file does not change while a response is being produced (it is rewritten only between responses: after Request.finish() of the "
-               "previous one / after the connection is gone, before the next request is looked up); Range field values contain no CR/LF/NUL (the channel refuses those: C19)",
+               "every response is judged against the file as it was when its request was rendered.  The planned rewrites happen between responses "
+               "(after Request.finish() of the previous one / after the connection is gone, before the next request is looked up).  A change UNDER a "
+               "response (concurrent writer) is a fault: if the path is replaced by rename the verdict stays strict; if the file is changed in place "
+               "'the requested bytes' are not defined and only 'never fails with an internal error' is judged, read as: every call into the "
+               "producer returns, nothing raises, and the response ends (finish(), or loseConnection()/abortConnection() on the request or its "
+               "transport - a body that cannot reach its announced Content-Length is best ended by closing) rather than being polled for ever",
+               "Range field values contain no CR/LF/NUL (the channel refuses those: C19)",
                "StaticProducer.bufferSize (a public class attribute) may be any positive integer",
                "a consumer of a pull producer may call resumeProducing() whenever it wants data and a producer is registered with it, also from "
                "inside its own write() (the producers' comments say so); it records the data before it asks for more",
@@ -305,8 +326,9 @@ class RepausingTransport(H.HTransport):
         H.HTransport._maybe_pause_producer(self)
 
 
-# Preconditions of genuine defects found by this check are kept out of a fraction of the runs (weights out of 10), so that the
-# remaining clauses are exercised on full-length runs whether or not the defects are present (DESIGN section 5).
+# Preconditions of genuine defects found by this check - all REPAIRED in /repo (fcf7520, ec5fdd9, 62137c1, f69032a, a36e381, c0b5930,
+# 08bfbf2, 36cba82) - are kept out of a fraction of the runs (weights out of 10; 10 = kept out altogether, only for dev-time comparison
+# with a tree without the repair) and let into all the others (DESIGN section 5).
 AVOID_REPAIRED = 1        # suffix longer than the file / several ranges none satisfiable / malformed non-UTF-8 (repaired in round 2)
 AVOID_NEGATIVE_READ = 1   # multipart response produced by more than one resumeProducing() call
 AVOID_UNPAUSED_START = 1  # pipelined request behind a response whose last write filled the send buffer
@@ -316,6 +338,13 @@ AVOID_STACKED_PAUSE = 1  # transport that re-issues pauseProducing() on every ov
 # self.request; the outer call then ran `self.request.unregisterProducer()` unguarded - SingleRangeStaticProducer has the guard).
 # In 1 of 10 direct runs the consumer knows the announced Content-Length and does not ask for more once it has arrived.
 AVOID_PULL_INSIDE_COMPLETING_WRITE = 1
+# round 6: the file changed UNDER a running response (a concurrent writer, between two pulls of one response).
+MIDRESPONSE_P = 0.12      # share of the runs in which a writer touches the file while one response is in production
+# Repaired in /repo 36cba82 (found in round 6): when the file SHRANK in place under a response, MultipleRangeStaticProducer.resumeProducing
+# never returned (`while dataLength < self.bufferSize` with read() == b"" for ever: the reactor thread hung) and SingleRangeStaticProducer
+# was polled for ever without writing, finishing or dropping the connection.  In this many of 10 runs with a change under a response
+# the writer only replaces (rename), grows or overwrites the file - never shortens it; 10 keeps the precondition out altogether.
+AVOID_SHRINK_UNDER_RESPONSE = 3
 
 
 def cleanup(sim):
@@ -543,6 +572,8 @@ class PullConsumer:
         self.idle = 0
         self.reentered = False
         self.stopped = False
+        self.dropped = False        # the producer gave the connection up (loseConnection / transport.abortConnection)
+        self.transport = self       # request.transport.loseConnection() / .abortConnection(): the same thing here
         self.breaches = []          # what the producer must not do to a consumer
 
     # -- what the resource reads
@@ -602,7 +633,7 @@ class PullConsumer:
             self.breaches.append("write-after-stopProducing")
         self.chunks.append(data)
         self.received += len(data)
-        if self.producer is None or self.finished or self.stopped or self.depth >= self.maxdepth:
+        if self.producer is None or self.finished or self.stopped or self.dropped or self.depth >= self.maxdepth:
             return
         n = self.announced()
         complete = n is not None and self.received >= n
@@ -625,6 +656,13 @@ class PullConsumer:
         self.finished += 1
         if self.producer is not None:
             self.breaches.append("finish-with-producer-registered")
+
+    # -- giving the connection up (http.Request.loseConnection; transport.loseConnection / abortConnection): the only honest end
+    #    of a response whose announced length cannot be delivered any more
+    def loseConnection(self):
+        self.dropped = True
+
+    abortConnection = loseConnection
 
 
 # ------------------------------------------------------------------ scenario
@@ -908,8 +946,74 @@ def run(sim):
                 if any(q["value"] == value and q["size"] != rsize and q["exp"].resolved != exp.resolved for q in allreqs[:-1]):
                     sim.probe("range_value_repeated_resolves_differently_after_rewrite")
         conns.append((creqs, bytes(stream), bounds))
+    # ---- a concurrent writer: the file is changed UNDER one response (between two pulls: after the header fields were computed)
+    disturb = None
+    relaxed = set()                 # requests whose response gets no verdict on fields/bytes/framing (the file changed in place under it)
+    if sim.draw_bool(MIDRESPONSE_P, "file-changed-under-response"):
+        avoid_shrink = sim.draw_weighted([(True, AVOID_SHRINK_UNDER_RESPONSE), (False, 10 - AVOID_SHRINK_UNDER_RESPONSE)],
+                                         "avoid-shrink-under-response")
+        dconn = sim.draw_int(0, nconn - 1, "changed-under-conn") if nconn > 1 else 0
+        # through the channel: the LAST response of a connection (what follows a response of the wrong length on the same
+        # connection cannot be told apart from it); direct family: any response
+        dk = conns[dconn][0][-1]["k"] if consumer == "channel" else sim.draw_int(0, total - 1, "changed-under-which")
+        csize = plan[dk][0]
+        if avoid_shrink:
+            kind = sim.draw_weighted([("replaced_by_rename", 4), ("grown_in_place", 2), ("same_size_other_bytes", 2)], "changed-how")
+        else:
+            kind = sim.draw_weighted([("truncated", 2), ("emptied", 1)], "changed-how")
+        if kind in ("truncated", "emptied") and csize == 0:
+            kind = "grown_in_place"
+        if kind == "truncated":
+            nsize = sim.draw_choice([csize // 2, csize - 1, max(0, csize - 16), min(1, csize - 1), csize // 4], "truncated-to")
+        elif kind == "emptied":
+            nsize = 0
+        elif kind == "grown_in_place":
+            nsize = min(cap, csize + sim.draw_choice([1, 16, max(1, csize), cap], "grown-by"))
+        elif kind == "same_size_other_bytes":
+            nsize = csize
+        else:
+            nsize = sim.draw_choice([csize, csize // 2, 0, min(cap, csize + 16), min(cap, 2 * csize + 1)], "replaced-by-size")
+        disturb = {"kind": kind, "k": dk, "conn": dconn, "after": sim.draw_choice([0, 0, 1, 1, 2, 4], "changed-after-reads"),
+                   "version": (nsize, 256), "done": False}
+
+    def change_under(tf, live):
+        """the writer's turn, if this is the moment: `tf` is the open file of the response chosen for it, `live` the requests whose
+        responses are in production right now"""
+        if disturb is None or disturb["done"] or tf is None or tf.k != disturb["k"] or tf.closed or tf.data_reads < disturb["after"]:
+            return
+        disturb["done"] = True
+        kind, version = disturb["kind"], disturb["version"]
+        data = stored_form(content_of(version), repr_kind, pre, post)
+        sim.fault("file_changed_under_response")
+        sim.probe("under_response_" + kind)
+        sim.event("changed-under-response", disturb["k"], kind, disk["v"][0], "->", version[0], "after reads", tf.data_reads)
+        if kind == "replaced_by_rename":
+            with open(path + ".new", "wb") as f:
+                f.write(data)
+            os.replace(path + ".new", path)
+        else:
+            with open(path, "wb") as f:       # same inode: the response's open file sees it
+                f.write(data)
+        mt = FILE_MTIME + 60 * disk["n"]
+        os.utime(path, (mt, mt))
+        disk["v"] = version
+        disk["n"] += 1
+        # A renamed-in replacement leaves the file the response has open alone, and an inflated representation sits in memory:
+        # the response is still due exactly as computed.  Changed in place, its bytes (and, shortened, its length) are no
+        # function of the request any more: no verdict on them - it must still END, and nothing may hang or raise.
+        if kind == "replaced_by_rename" or repr_kind == "packed":
+            sim.probe("strict_verdict_on_response_whose_path_was_replaced")
+        else:
+            for r in live:
+                relaxed.add(r["k"])
+
+    def under_witness(r):
+        return "file-%s-under-response" % ("shrunk" if disturb["kind"] in ("truncated", "emptied") else disturb["kind"].replace("_", "-"))
+
     # keep runs short: a response should not take more than several hundred pulls
     due = sum(max(r["size"], sum(b - a + 1 for a, b in r["exp"].resolved)) for r in allreqs)
+    if disturb is not None:
+        due += disturb["version"][0]
     while due // bufsize > 600:
         bufsize *= 4
     if avoid_negread and any(r["value"] is not None and b"," in r["value"] for r in allreqs):
@@ -919,6 +1023,8 @@ def run(sim):
                   "tree": tree, "representation": repr_kind, "stored_header": pre, "stored_trailer": post, "site_per_connection": site_per_conn, "bufferSize": bufsize, "hwm": hwm, "nreqs": nreqs,
                   "avoid_repaired_findings": avoid, "avoid_multipart_multicall": avoid_negread, "avoid_pipelined_backpressure": avoid_unpaused,
                   "repause": repause, "bursts": bursts, "loss_at": loss_at, "loss_conn": loss_conn,
+                  "changed_under_response": None if disturb is None else {"kind": disturb["kind"], "request": disturb["k"], "after_reads": disturb["after"],
+                                                                          "new_size": disturb["version"][0]},
                   "direct": None if consumer != "direct" else {"reenter_depth": maxdepth, "reenter_p": p_reenter, "length_aware": length_aware,
                                                               "pull_inside_register": pull_on_register, "two_live": two_live,
                                                               "stop_request": stop_req, "stop_after": stop_after},
@@ -944,6 +1050,7 @@ def run(sim):
         t.repause = repause
         queue = net.cut(sim, stream, boundaries=bounds)
         lost = False
+        stalled = False
         nev = 0
         pulls["idle"] = 0
         my_loss = loss_at if ci == loss_conn else None
@@ -951,6 +1058,8 @@ def run(sim):
             with sim.guard("raised", "drive"):
                 while True:
                     sim.step(20000)
+                    if disturb is not None and not disturb["done"] and len(opened) > obase:
+                        change_under(opened[-1], reqs[-1:])
                     now = sim.clock.seconds()
                     nt = sim.clock.next_time()
                     ev = []
@@ -993,6 +1102,7 @@ def run(sim):
                         pulls["idle"] = pulls["idle"] + 1 if len(t.written) == before else 0
                         if pulls["idle"] > 60:
                             sim.event("producer-makes-no-progress")
+                            stalled = True
                             break
                     else:
                         n = sim.draw_choice([None, 1, 7, 50, 1000, 20000, 2], "take")
@@ -1006,9 +1116,17 @@ def run(sim):
                             t._drained()
         except _Spin:
             pass
+        relaxed_last = reqs[-1]["k"] in relaxed
         if book["spin"]:
             r = allreqs[book["k"]] if book["k"] is not None else reqs[-1]
+            if relaxed_last:
+                sim.fail("pull-never-returns", under_witness(reqs[-1]), "one resumeProducing() call read the file 3000 times in a row at its end "
+                         "and did not return (on a real reactor: the reactor thread hangs for ever): %s" % describe())
             sim.fail("never-finishes", witness_of(r), "a producer kept reading at end of file without finishing: %s" % describe())
+        if relaxed_last and stalled and not srv.closing():
+            sim.fail("never-finishes", under_witness(reqs[-1]), "the producer was asked for more 60 times in a row and neither wrote, nor finished "
+                     "the response, nor dropped the connection (the channel's cooperator polls it like this for as long as the client stays): %s"
+                     % describe())
         npause = t.log.count("pause")
         if npause:
             sim.fault("client_stall_producer_paused", npause)
@@ -1032,6 +1150,9 @@ def run(sim):
 
         # ---- complete responses: each judged against the file as it was when the request was rendered
         for i, m in enumerate(rs):
+            if relaxed_last and i >= nreq - 1:
+                sim.probe("no_verdict_on_response_whose_file_changed_in_place")
+                break
             r = reqs[i]
             exp = r["exp"]
             size, content = r["size"], r["content"]
@@ -1085,7 +1206,12 @@ def run(sim):
         if rs and rs[-1].framing == "close" and lost:
             complete -= 1
 
-        if not lost:
+        if relaxed_last and len(rs) >= nreq - 1:
+            # every response before the one whose file changed in place has been judged; that one only had to end
+            sim.check("write-after-connection-lost", t.writes_after_lost == 0, "file-changed-in-place", detail)
+            if not lost and not stalled:
+                sim.probe("response_ended_after_file_changed_in_place")
+        elif not lost:
             if not (st == "ok" and len(rs) == nreq):
                 i = min(len(rs), nreq - 1)
                 # 'ok' with responses missing = not one byte of the next response was written; 'incomplete' = it stops short
@@ -1159,6 +1285,15 @@ def run(sim):
             body = b"".join(c.chunks)
             sim.event("direct-response", r["k"], c.code, c.headers.get(b"content-range"), len(body), "stopped" if partial else c.finished)
             sim.check("consumer-contract", not c.breaches, c.breaches[0] if c.breaches else "", lambda: "%r\n %s" % (c.breaches, ddetail(c)))
+            if r["k"] in relaxed:
+                # the file changed in place under this response: it had to end (finish() once, or the connection given up)
+                sim.check("finish-count", c.finished <= 1, "finished-2-times", lambda: ddetail(c))
+                if c.code >= 500:
+                    sim.fail("internal-error", under_witness(r), ddetail(c))
+                sim.probe("no_verdict_on_response_whose_file_changed_in_place")
+                if not partial:
+                    sim.probe("response_ended_after_file_changed_in_place")
+                return
             if not partial:
                 sim.check("finish-count", c.finished == 1, "finished-%d-times" % min(c.finished, 2), lambda: ddetail(c))
             if c.code >= 500:
@@ -1194,9 +1329,11 @@ def run(sim):
 
         def settle(c):
             """after every call into the code under test: has the response ended?"""
-            if c in active and (c.finished or c.producer is None):
+            if c in active and (c.finished or c.dropped or c.producer is None):
                 active.remove(c)
-                if not c.finished:
+                if c.dropped and c.producer is not None:
+                    guarded(c, "stopProducing", c.producer.stopProducing)       # what a channel does when its connection is gone
+                if not c.finished and not (c.dropped and c.r["k"] in relaxed):
                     sim.fail("response-incomplete", witness_of(c.r), "the producer unregistered itself without finishing the response\n " + ddetail(c))
                 judge(c)
 
@@ -1245,11 +1382,21 @@ def run(sim):
                 active.remove(c)
                 judge(c, partial=True)
                 continue
+            if disturb is not None and not disturb["done"]:
+                for a in active:
+                    change_under(a.tf, [x.r for x in active])
             sim.event("direct-pull", c.r["k"])
             try:
                 guarded(c, "resumeProducing", c.pull)
             except _Spin:
                 pass
+            if c.r["k"] in relaxed:
+                if book["spin"]:
+                    sim.fail("pull-never-returns", under_witness(c.r), "one resumeProducing() call read the file 3000 times in a row at its end "
+                             "and did not return: %s" % ddetail(c))
+                if c.idle > 60 or c.pulls > 3000:
+                    sim.fail("never-finishes", under_witness(c.r), "the producer was asked for more 60 times in a row and neither wrote, nor "
+                             "finished the response, nor gave the connection up: %s" % ddetail(c))
             if book["spin"] or c.idle > 60 or c.pulls > 3000:
                 sim.fail("never-finishes", witness_of(c.r), "a producer is asked again and again and neither writes nor finishes: %s" % ddetail(c))
             settle(c)
@@ -1357,7 +1504,19 @@ MUTANTS = [
     "asks for 'exactly the requested byte ranges and matching Content-Range ... per RFC 9110' and is silent about a sequence; RFC 9110 15.3.7.2 "
     "makes request order a SHOULD and tells clients they 'cannot rely on receiving the same ranges ... nor the same order'.  A clause on the order "
     "would raise an alarm on a conforming implementation; the workload does reach the trigger (probe multipart_for_ranges_not_in_ascending_order)",
-    "GENUINE (unchanged tree, direct family, 1 run in 10 not avoiding it) MultipleRangeStaticProducer: consumer pulls from inside the write that "
+    # -- round 6: the file changed under a response in production
+    "GENUINE, repaired in /repo 36cba82 (found by a seed author reading the code, confirmed by the new fault family; knob AVOID_SHRINK_UNDER_RESPONSE; "
+    "CAUGHT again when the fix commit is reverted) "
+    "file truncated / emptied in place between two pulls of one response: MultipleRangeStaticProducer.resumeProducing never returned "
+    "(`while dataLength < self.bufferSize`: read() == b'' for ever, neither counter moves) -> pull-never-returns:file-shrunk-under-response; "
+    "SingleRangeStaticProducer reads b'', bytesWritten never reaches size, the channel's cooperator polls it for as long as the client stays "
+    "-> never-finishes:file-shrunk-under-response.  NoRangeStaticProducer ends the response at end of file (short of its Content-Length): no verdict",
+    "PASSES with the repair of /repo 36cba82 (Single: an empty read before `size` bytes ends the response; Multiple: `if wanted and not p: done = True; break`) "
+    "also at AVOID_SHRINK_UNDER_RESPONSE = 0: the relaxed verdict accepts a response ended short",
+    "CAUGHT seeded C25-r6a (rebased onto 36cba82: the repaired guard with the condition `if not p and written < size` instead of `if wanted and not p`, "
+    "which also fires on the legitimate zero-byte read after a separator that filled the buffer) -> content-length:206, multipart:unparseable, "
+    "response-incomplete:*",
+    "GENUINE (repaired in /repo 08bfbf2; direct family) MultipleRangeStaticProducer: consumer pulls from inside the write that "
     "carries the close-delimiter (or the empty body of a multi-range 416) -> raised:direct-reentrant:AttributeError "
     "('NoneType' object has no attribute 'unregisterProducer', static.py resumeProducing `if done:`)",
 ]
